@@ -115,9 +115,10 @@ def run(ctx, prove=True):
             import sys
             if hasattr(sys, "tracebacklimit"):
                 del sys.tracebacklimit
-        tree = parsed.tree
+        rv = parsed.root_variant()
+        tree = rv.tree if rv is not None else None
         if tree is None:
-            continue
+            ctx.bump("no_tree"); continue
         tymap = {}
         flat = []
         ser_seg(tree, tymap, flat)
